@@ -272,7 +272,7 @@ func c12Run(r *core.Run) {
 			head, tail = base[:closeAt], base[closeAt:]
 			r.Probe("pad=inside-root")
 		}
-		level := []int{6, 9, 1}[sel%3]
+		level := []int{6, 9, 1, 0, -2}[sel%5] // 0: stored blocks (the stream is LONGER than its expansion), -2: Huffman only
 		comp = deflateRepeat(head, ' ', padN, tail, level)
 		rawDoc = func() string { return head + strings.Repeat(" ", int(padN)) + tail }
 		r.Fault("boundary_padding")
